@@ -255,6 +255,9 @@ def body(chk):
     # between the resolver and the scheduler: Features::insert stores, per scenario, what the resolver said for it in its own rule
     from checks import insert_retry
     insert_retry.obligations(chk, 'C18')
+    # the nearest `@retry..` tag of a row expanded from an outline is its Examples block's: what expansion hands down
+    from checks import c16
+    c16.obligations(chk, 'C18')
 
 
 if __name__ == '__main__':
